@@ -14,13 +14,13 @@ import (
 )
 
 var (
-	replay    map[string]uint64
-	loaded    bool
-	seq       = map[string]int{}
-	Failures  []string
-	Reached   []string
-	pruned    bool
-	params    map[string]int
+	replay   map[string]uint64
+	loaded   bool
+	seq      = map[string]int{}
+	Failures []string
+	Reached  []string
+	pruned   bool
+	params   map[string]int
 )
 
 type prunedPath struct{}
@@ -68,15 +68,15 @@ func val(name string) uint64 {
 	return replay[name]
 }
 
-func NondetBool(name string) bool    { return val(name) != 0 }
-func NondetByte(name string) byte    { return byte(val(name)) }
-func NondetU16(name string) uint16   { return uint16(val(name)) }
-func NondetU32(name string) uint32   { return uint32(val(name)) }
-func NondetU64(name string) uint64   { return val(name) }
-func NondetI32(name string) int32    { return int32(val(name)) }
-func NondetI64(name string) int64    { return int64(val(name)) }
-func NondetInt(name string) int      { return int(val(name)) }
-func NondetUint(name string) uint    { return uint(val(name)) }
+func NondetBool(name string) bool  { return val(name) != 0 }
+func NondetByte(name string) byte  { return byte(val(name)) }
+func NondetU16(name string) uint16 { return uint16(val(name)) }
+func NondetU32(name string) uint32 { return uint32(val(name)) }
+func NondetU64(name string) uint64 { return val(name) }
+func NondetI32(name string) int32  { return int32(val(name)) }
+func NondetI64(name string) int64  { return int64(val(name)) }
+func NondetInt(name string) int    { return int(val(name)) }
+func NondetUint(name string) uint  { return uint(val(name)) }
 
 // NondetRange returns an int in [lo,hi]; the engine forks one path per value.
 func NondetRange(name string, lo, hi int) int {
